@@ -12,6 +12,7 @@ from engine.util import own_nodes, calls_with_nodes, where
 RULES = {
     "R-19.1": "every in-place write to a B-tree node (elts/children) and every call of a node-mutating method has an OWNED receiver (self of a mutating method, result of maybe_cow_child/_get_node/clone/constructor); values read from X.children[...] are shared",
     "R-19.2": "every BTree method that changes the tree first passes _check_mutable_and_park() and cows the root; _check_mutable_and_park raises when frozen; freezing is one-way; cloning requires a frozen original",
+    "R-19.5": "insert_nonfull: after a full child was split (its median moved up into this node) the search of this node restarts before descending - the key being inserted may now be this node's own element",
     "R-19.4": "cursor parking protocol: every mutation parks every registered cursor; next()/prev() pass _maybe_unpark() before reading their position; a parked cursor with a remembered key re-seeks it, the key's presence being tested by identity with None (keys may be falsy), never by truthiness",
     "R-19.3": "BTreeDict/BTreeSet change the tree only through insert_element / delete_key / delete_exact",
 }
@@ -273,6 +274,20 @@ def run(model, rep, tier):
     rep.check(len(loops) == 1, "R-19.4", cp.qualname, where(cp, cp.node), "parks every registered cursor", "no longer parks every registered cursor before a mutation", stmt="park-all")
     pk = cur.methods["park"]
     rep.check(any(isinstance(n, ast.Assign) and src(n) == "self.parked = True" for n in ast.walk(pk.node)), "R-19.4", pk.qualname, where(pk, pk.node), "park() sets parked", "park() does not set parked", stmt="park-sets")
+    # ------------------------------------------------------------ R-19.5
+    inf = meths["insert_nonfull"]
+    cfg = CFG(inf.node, implicit_exc=False)
+    splits = [n for (n, c) in calls_with_nodes(cfg) if isinstance(c.func, ast.Attribute) and c.func.attr == "split"]
+    searches = [n.id for (n, c) in calls_with_nodes(cfg) if isinstance(c.func, ast.Attribute) and c.func.attr == "search_in_node"]
+    descents = [n for (n, c) in calls_with_nodes(cfg) if isinstance(c.func, ast.Attribute) and c.func.attr == "insert_nonfull"]
+    if len(splits) != 1 or not searches or not descents:
+        rep.blind("R-19.5", inf.qualname, where(inf, inf.node), f"split/search/descent sites not recognised ({len(splits)}/{len(searches)}/{len(descents)})", stmt="research-after-split")
+    else:
+        r = cfg.reachable([y for (y, k) in cfg.succ[splits[0].id] if k not in ("exc", "raise")], blocked=searches)
+        rep.check(not any(d.id in r for d in descents) and not any(isinstance(cfg.nodes[i].ast, ast.Return) for i in r if cfg.nodes[i].ast is not None), "R-19.5", inf.qualname, where(inf, splits[0].ast),
+                  "after child.split() the node is searched again before any descent or return",
+                  "after splitting a full child the code descends without searching this node again: when the key equals the median that just moved up, it is inserted a second time below "
+                  "(duplicate key, len() off by one, lookup returns the old value)", stmt="research-after-split")
     rep.meta["explanation"] = (
         "Ownership typestate for B-tree nodes: a fixpoint computes which _Node methods/parameters require an owned receiver (they write elts/children "
         "directly or transitively); every write and every such call in dns/btree.py is then checked with reaching definitions to have an owned receiver "
@@ -408,6 +423,9 @@ def _root_owned(cfg, at):
 
 
 WITNESSES = [
+    {"id": "c19-no-research-after-split", "rule": "R-19.5", "file": "dns/btree.py", "expect": "fires",
+     "old": "                    self.adopt(*child.split())\n                    # Splitting might result in our target moving to us, so\n                    # search again.\n                    continue\n",
+     "new": "                    left, middle, right = child.split()\n                    self.adopt(left, middle, right)\n                    if key > middle.key():\n                        i += 1\n                        child = right\n"},
     {"id": "c19-parking-key-truthiness", "rule": "R-19.4", "file": "dns/btree.py", "expect": "fires",
      "old": "            if self.parking_key is not None:", "new": "            if self.parking_key:"},
     {"id": "c19-next-without-unpark", "rule": "R-19.4", "file": "dns/btree.py", "expect": "fires",
